@@ -126,3 +126,26 @@ func harness_C11_group() {
 	}
 	verifCover("C11.group-end")
 }
+
+func init() { verifRegister("harness_C11_dbg", harness_C11_dbg) }
+func harness_C11_dbg() {
+	g := &Group{instName: "limits"}
+	children := []config.Node{{Name: "ip", Args: []string{"concurrency", "1"}}, {Name: "source", Args: []string{"concurrency", "1"}}}
+	if err := g.Init(config.NewMap(nil, config.Node{Children: children})); err != nil {
+		verifFail("init")
+	}
+	ctx := context.Background()
+	ip0, ip1 := net.IPv4(10, 0, 0, 1), net.IPv4(10, 0, 0, 2)
+	verifLog("ip strings", ip0.String(), ip1.String())
+	if err := g.TakeMsg(ctx, ip0, "a.org"); err != nil {
+		verifFail("first take")
+	}
+	err := g.TakeMsg(ctx, ip1, "a.org")
+	verifLog("second take err", err != nil)
+	g.ReleaseMsg(ip0, "a.org")
+	err = g.TakeMsg(ctx, ip1, "b.org")
+	verifLog("third take err", err != nil)
+	if err != nil {
+		verifFail("leak")
+	}
+}
